@@ -12,7 +12,9 @@ import (
 	"fmt"
 	"io"
 	"os"
+	"runtime"
 	"runtime/debug"
+	"time"
 
 	"github.com/urfave/cli/v2"
 )
@@ -38,6 +40,8 @@ type verifRes struct {
 	Runs  []verifRun     `json:"runs,omitempty"`
 	Fault *verifFaultRes `json:"fault,omitempty"`
 	Bad   string         `json:"bad,omitempty"`
+	// Gor is the number of goroutines alive once the job is over (after a short settling time)
+	Gor int `json:"gor"`
 }
 
 type verifExit struct{ code int }
@@ -147,6 +151,7 @@ func verifServe() {
 					os.Chdir(home)
 				}
 			}
+			rs.Gor = verifGoroutines()
 			b, _ := json.Marshal(rs)
 			out.Write(b)
 			out.WriteByte('\n')
@@ -156,6 +161,21 @@ func verifServe() {
 			return
 		}
 	}
+}
+
+// verifGoroutines counts the goroutines left behind by the job: goroutines that are about to
+// finish get up to 50 ms to do so, the count is taken when it has been stable for 2 ms
+func verifGoroutines() int {
+	n := runtime.NumGoroutine()
+	for i := 0; i < 25 && n > 1; i++ {
+		time.Sleep(2 * time.Millisecond)
+		m := runtime.NumGoroutine()
+		if m == n {
+			break
+		}
+		n = m
+	}
+	return n
 }
 
 func init() {
